@@ -73,12 +73,15 @@ def aioReplay (j : Json) : Except String Json := do
     | "plain" => pure Thr2Aio.Flavour.plain | "ts" => pure .ts | x => throw s!"bad fl {x}" : Except String Thr2Aio.Flavour)
   let kind ← (do match (← getStr j "kind") with
     | "soon" => pure Thr2Aio.Kind.soon | "rel" => pure .rel | x => throw s!"bad kind {x}" : Except String Thr2Aio.Kind)
+  let smode ← (do match (← getStr j "smode") with
+    | "onLoop" => pure Thr2Aio.SMode.onLoop | "foreign" => pure .foreign | "pre" => pure .pre
+    | x => throw s!"bad smode {x}" : Except String Thr2Aio.SMode)
   let mode ← (do match (← getStr j "mode") with
     | "onLoop" => pure Thr2Aio.Mode.onLoop | "foreign" => pure .foreign | "notRunning" => pure .notRunning
     | x => throw s!"bad mode {x}" : Except String Thr2Aio.Mode)
   let test ← (do match (← getStr j "test") with
     | "asIs" => pure Thr2Aio.Test.asIs | "fixed" => pure .fixed | x => throw s!"bad test {x}" : Except String Thr2Aio.Test)
-  let c : Thr2Aio.Cfg := ⟨fl, kind, mode, test⟩
+  let c : Thr2Aio.Cfg := ⟨fl, kind, smode, mode, test⟩
   let sched := (← getArr j "sched").filterMap (fun x => x.getNat?.toOption)
   let (labels, s) := Thr2Aio.runLabels c (Thr2Aio.init c) sched
   pure (Json.mkObj [
